@@ -21,7 +21,7 @@ TIERS = {
 # further workloads for the property's online monitor (vf/online.py): the repository's tests and other checks' generated cases
 ONLINE = {'which': ['rt'], 'rt_classify': True, 'foreign': ['C01', 'C04', 'C05', 'C07', 'C10', 'C11', 'C12', 'C17', 'C20'], 'n': {'quick': 30, 'thorough': 400}}
 REQUIRED_BUCKETS = ['value:long-string', 'value:nested', 'value:reference', 'value:macro-ref', 'value:nonliteral-object', 'value:nonliteral-set', 'value:nan-inf',
-                    'value:repr-looks-like-reference', 'value:repr-unbalanced', 'value:repr-looks-like-string', 'value:complex', 'macro:literal', 'macro:nonliteral',
+                    'value:repr-looks-like-reference', 'value:repr-unbalanced', 'value:repr-looks-like-string', 'value:equal-to-literal-but-repr-is-not-one', 'value:repr-raises', 'value:complex', 'macro:literal', 'macro:nonliteral',
                     'name:module-qualified-needed', 'name:method', 'name:case-variant-scope', 'name:case-variant-configurable', 'name:case-variant-macro',
                     'width:tiny', 'width:indent0', 'width:default', 'imports:present', 'imports:from', 'imports:alias', 'perm:3+', 'roundtrip:done',
                     'omitted:nonrepresentable', 'api:bind_parameter', 'api:text', 'registration:dynamic', 'history:registration-after-config_str']
@@ -40,6 +40,26 @@ class ReprLike:
     return self.text
 
 
+class EqFloat(float):
+  """Equal to a literal, but printed with a unit: the repr merely *starts* with that literal."""
+
+  def __repr__(self):
+    return '1.5 deg'
+
+
+class EqIntInjecting(int):
+  """Equal to a literal; the repr continues on a new line with what looks like another statement."""
+
+  def __repr__(self):
+    return '1\nc6.c6c.Z = 666'
+
+
+class ReprRaises:
+
+  def __repr__(self):
+    raise RuntimeError('this object has no repr')
+
+
 NONLIT = {
     'object': lambda: object(),
     'lambda': lambda: (lambda: 0),
@@ -56,12 +76,16 @@ NONLIT = {
     'repr-junk': lambda: ReprLike('1 2 $'),
     'repr-empty': lambda: ReprLike(''),
     'repr-newline': lambda: ReprLike('1\nc6a.x = 2'),
+    'eq-literal-repr-trailing': lambda: EqFloat(1.5),
+    'eq-literal-repr-injects': lambda: EqIntInjecting(1),
+    'repr-raises': lambda: ReprRaises(),
 }
 NONLIT_BUCKET = {'object': 'value:nonliteral-object', 'lambda': 'value:nonliteral-object', 'set': 'value:nonliteral-set', 'nan': 'value:nan-inf', 'inf': 'value:nan-inf',
                  'complex': 'value:complex', 'repr-ref': 'value:repr-looks-like-reference', 'repr-refcall': 'value:repr-looks-like-reference',
                  'repr-macro': 'value:repr-looks-like-reference', 'repr-unbalanced': 'value:repr-unbalanced', 'repr-unterminated': 'value:repr-unbalanced',
                  'repr-string': 'value:repr-looks-like-string', 'repr-junk': 'value:repr-unbalanced', 'repr-empty': 'value:repr-unbalanced',
-                 'repr-newline': 'value:repr-unbalanced'}
+                 'repr-newline': 'value:repr-unbalanced', 'eq-literal-repr-trailing': 'value:equal-to-literal-but-repr-is-not-one',
+                 'eq-literal-repr-injects': 'value:equal-to-literal-but-repr-is-not-one', 'repr-raises': 'value:repr-raises'}
 
 
 def setup(ctx):
